@@ -78,7 +78,10 @@ ASSUMPTIONS = [
     "a local file or an Index that is not valid UTF-8 raises UnicodeDecodeError out of update_file instead of "
     "triggering the full download: outside the claimed domain, generated only with VERIF_C19_EXTRA=1 (reported, not fixed)",
     "patch names and index tokens contain no URL metacharacters (% ? # /)",
-    "SHA-1/SHA-256 collision freedom: theorems assume H injective on the finite set of contents of the run",
+    "SHA-1/SHA-256 collision freedom, as explicit hypotheses of the theorems (H is universally quantified): "
+    "no_collision = the digest separates the local content from the n+1 published versions (boolean); the fault "
+    "theorems that conclude 'returned = vn' also assume that no other content has the digest of vn; "
+    "C19_update_fault_safe (local = returned or local unchanged, no .new) assumes nothing about the hash",
     "no '.new' file exists before the call; unlink of '.new' fails only where the schedule says so (theorems: never)",
 ]
 
